@@ -121,7 +121,7 @@ theorem too_large_refused (s : Scheme) (e b p tl aLarge : Nat) (he : 0 < e) (hb 
   · intro h; simp [refused, h]
   · intro h
     simp only [refused, Bool.or_eq_false_iff, decide_eq_false_iff_not, Nat.not_lt] at h
-    have hle := h.1
+    have hle := h.1.1
     unfold maxTransferLength at hle
     dsimp only at hle
     constructor
@@ -154,31 +154,47 @@ theorem partition_instance (b l e aL aS nL n : Nat) (hb : 0 < b) (he : 0 < e) (h
   partition_blocks_ok b l e aL aS nL n hb he hl0 hl h
 
 /-- the second half of `hblocks`: an object `add_object` accepts has encodable blocks - for No-Code,
-    RaptorQ and (after the repairs of D21 / D25: parity ≥ 1, A_large + parity ≤ 256) Reed-Solomon.
-    Raptor blocks of 2 or 3 symbols are the exception (finding D23 / D26). -/
+    RaptorQ and Raptor up to the code's K maximum (larger blocks are refused since /repo 29615e2; before,
+    the object was accepted and `Sender::read` panicked) and (after the repairs of D21 / D25: parity ≥ 1,
+    A_large + parity ≤ 256) Reed-Solomon.  Raptor blocks of 2 or 3 symbols are the exception (finding D23 / D26). -/
 theorem accepted_blocks_encodable (s : Scheme) (e b p tl aLarge k : Nat)
     (hacc : refused s e b p tl aLarge = false) (hk1 : 1 ≤ k) (hk2 : k ≤ aLarge)
     (hrap : s = .raptor → k ≠ 2 ∧ k ≠ 3) : blockFails s k p = false := by
   simp only [refused, Bool.or_eq_false_iff] at hacc
   cases s with
   | nocode => rfl
-  | raptorq => rfl
+  | raptorq =>
+    have h3 := hacc.2
+    simp only [beq_self_eq_true, Bool.or_true, Bool.true_and, decide_eq_false_iff_not] at h3
+    simp only [blockFails, decide_eq_false_iff_not]
+    omega
   | raptor =>
     have := hrap rfl
-    simp only [blockFails, Bool.or_eq_false_iff, beq_eq_false_iff_ne]
-    exact this
+    have h3 := hacc.2
+    simp only [beq_self_eq_true, Bool.true_or, Bool.true_and, decide_eq_false_iff_not] at h3
+    simp only [blockFails, Bool.or_eq_false_iff, beq_eq_false_iff_ne, decide_eq_false_iff_not]
+    exact ⟨this, by omega⟩
   | rs =>
-    have h2 := hacc.2
+    have h2 := hacc.1.2
     simp only [beq_self_eq_true, Bool.true_or, Bool.true_and, Bool.or_eq_false_iff, beq_eq_false_iff_ne,
       decide_eq_false_iff_not] at h2
     simp only [blockFails, Bool.or_eq_false_iff, beq_eq_false_iff_ne, decide_eq_false_iff_not]
     omega
   | rsus =>
-    have h2 := hacc.2
+    have h2 := hacc.1.2
     simp only [beq_self_eq_true, Bool.or_true, Bool.true_and, Bool.or_eq_false_iff, beq_eq_false_iff_ne,
       decide_eq_false_iff_not] at h2
     simp only [blockFails, Bool.or_eq_false_iff, beq_eq_false_iff_ne, decide_eq_false_iff_not]
     omega
+
+/-- the K maximum is sharp in the model as in the libraries: a RaptorQ block of 56403 source symbols is
+    encodable, one of 56404 is not (and `add_object` refuses the object); likewise 8192 / 8193 for Raptor -/
+theorem kmax_boundary :
+    blockFails .raptorq 56403 1 = false ∧ blockFails .raptorq 56404 1 = true ∧
+    blockFails .raptor 8192 1 = false ∧ blockFails .raptor 8193 1 = true ∧
+    refused .raptorq 4 56404 1 225616 56404 = true ∧ refused .raptorq 4 56403 1 225612 56403 = false ∧
+    refused .raptor 4 8193 1 32772 8193 = true ∧ refused .raptor 4 8192 1 32768 8192 = false := by
+  decide
 
 /-- the hypotheses `emitTransfer … = some …` of the session-level theorems are always satisfiable: the
     model's block encoder produces a listing for every encodable block structure (its loop never runs out
